@@ -37,3 +37,7 @@ add("C09", "exploration", "exhaustive enumeration of hyperslab selections per sm
     "For 25 library-written datasets (rank 1-4, contiguous / chunked with partial edge chunks / shrunk by Resize, 6 element types): every (start,count,stride,block) per dimension with start in [0,d], count in [1,d+1], stride in {1,2,3,d}, block in {1,2} (reduced at rank>=3) — all valid selections and all that leave the bounds by one; plus a boundary grid of valid selections on every dataset of the bundled reference corpus that Read() supports and that has <= 256 (thorough 4096) elements (compact layout, big-endian, C-library chunk indexes, filters). ReadHyperslab/ReadSlice must equal the gather from Read() of the same open file; out-of-bounds selections must be rejected; the chunk iterator must visit each chunk once and tile the full read.",
     "Differential: if Read() itself is wrong (C01) this check fires only when the partial path disagrees with it. Bound: dataset extents <= 7 per dimension for the complete selection space.",
     "DESIGN.md §5 C09", "E4-grid-files")
+add("C16", "model_checking", "exhaustive enumeration of (reachable state x failing call x follow-up) with a run-without-the-call differential oracle",
+    "States: every valid prefix of length <= 2 (thorough 3) over 9 valid operations plus capacity-adjacent states (group at 32 entries, name heap nearly full, dense attributes, header nearly full, dense index at its 371-record capacity). For each state every call of a 49-kind failing-call catalogue (invalid arguments, duplicates, missing parents/targets, size mismatches, resize limits, wrong session kind) aimed at each existing object, plus capacity probes, each followed by each of 5 valid operations. Whenever the call returned an error: the closed file must dump equal to the run without the call, the follow-up must behave the same, nothing may panic, Close x3 returns nil. Calls on a closed writer must return errors.",
+    "The oracle only fires when the candidate call returned an error (an accepted call is judged by C03). File addresses are normalised out of the dump (allocation leaks are not logical content).",
+    "DESIGN.md §5 C16", "E1-sequences")
